@@ -341,6 +341,8 @@ class Ctx:
         self.cdiv_mode = 'expand'  # or 'atom': 1/w as defined atoms
         self.lazy_decide = False   # fork without feasibility queries
         self.angle_zero_fork = False  # np.angle(z): fork on z == 0
+        self.eig_sorted = False   # Hermitian eig stub: ascending distinct
+        self.norm_unit_check = False  # norm(x): return 1 if provably unit
         self.norm_positive = False  # np.linalg.norm(x) > 0 (genericity)
         self.assumptions = []    # textual, for evidence
         self.assumed = []        # z3 terms assumed (for smt2 export)
@@ -1250,6 +1252,22 @@ def _mono_sign(p):
     if _CUR is None:
         return None
     single = p.monomial_single()
+    if single is None and len(p.t) > 1 and len(p.t) <= 12:
+        # a sum of terms that all have the same known sign
+        signs = []
+        for m, c in p.t.items():
+            if not m:
+                signs.append((True, 1 if c > 0 else -1))
+                continue
+            sg = _mono_sign(Poly({m: c}))
+            if sg is None:
+                return None
+            signs.append(sg)
+        if all(sg[1] > 0 for sg in signs):
+            return any(sg[0] for sg in signs), 1
+        if all(sg[1] < 0 for sg in signs):
+            return any(sg[0] for sg in signs), -1
+        return None
     if single is None or not single[1]:
         return None
     c, m = single
